@@ -51,9 +51,9 @@ func (c *verifCam) Read(p []byte) (int, error) {
 	c.pending = c.pending[n:]
 	return n, nil
 }
-func (c *verifCam) Close() error                       { c.closed++; return nil }
-func (c *verifCam) SetReadDeadline(time.Time) error    { return nil }
-func (c *verifCam) RemoteAddr() net.Addr               { return &net.TCPAddr{IP: net.IPv4(10, 0, 0, 9), Port: 554} }
+func (c *verifCam) Close() error                    { c.closed++; return nil }
+func (c *verifCam) SetReadDeadline(time.Time) error { return nil }
+func (c *verifCam) RemoteAddr() net.Addr            { return &net.TCPAddr{IP: net.IPv4(10, 0, 0, 9), Port: 554} }
 
 // answer produces the camera's reaction to the next unanswered request.
 func (c *verifCam) answer() {
